@@ -118,9 +118,75 @@ where
     w.clear_refs(&h.typename, &h.id);
 }
 
+/// Self-differential for an identity history: full refs vs refs at the surviving tips.
+fn check_identity(rep: &mut Reporter, w: &World, ops: &[(Oid, Vec<usize>)]) {
+    use radicle::cob::identity::{Identity, TYPENAME};
+    rep.eval();
+    let typename = TYPENAME.clone();
+    let id = radicle::cob::ObjectId::from(ops[0].0);
+    let ns: Vec<usize> = (0..24).collect();
+    let mut is_parent = vec![false; ops.len()];
+    for (_, ps) in ops {
+        for p in ps {
+            is_parent[*p] = true;
+        }
+    }
+    let tips: Vec<Oid> = (0..ops.len()).filter(|i| !is_parent[*i]).map(|i| ops[i].0).collect();
+    w.set_refs(&typename, &id, &tips, &ns);
+    let Ok(Some(e1)) = eval::<Identity>(w, &typename, &id) else {
+        rep.inconclusive("identity evaluation failed", json!({}));
+        return;
+    };
+    let t2: Vec<Oid> = e1.tips.iter().copied().collect();
+    w.set_refs(&typename, &id, &t2, &ns);
+    let Ok(Some(e2)) = eval::<Identity>(w, &typename, &id) else {
+        rep.inconclusive("identity evaluation (reduced) failed", json!({}));
+        return;
+    };
+    let idx = |o: &Oid| ops.iter().position(|x| x.0 == *o);
+    let hist = || json!(ops.iter().enumerate().map(|(i, (o, p))| json!({"i": i, "oid": o.to_string(), "parents": p})).collect::<Vec<_>>());
+    if e2.entries != e1.entries {
+        // Classify: heartwood's identity evaluator tolerates an `UnexpectedState` error of a change X
+        // only while X has concurrent changes in the graph. If every minimal change that disappeared
+        // has NO surviving concurrent change (so in the reduced history its error became fatal) but had
+        // one in the full history (necessarily a rejected one), the difference is that known mechanism.
+        let n = ops.len();
+        let mut anc: Vec<std::collections::BTreeSet<usize>> = vec![Default::default(); n];
+        for i in 0..n {
+            for p in ops[i].1.clone() {
+                let a = anc[p].clone();
+                anc[i].insert(p);
+                anc[i].extend(a);
+            }
+        }
+        let concurrent = |x: usize, y: usize| x != y && !anc[x].contains(&y) && !anc[y].contains(&x);
+        let gone: Vec<usize> = e1.entries.difference(&e2.entries).filter_map(idx).collect();
+        let minimal: Vec<usize> = gone.iter().copied().filter(|x| !anc[*x].iter().any(|a| gone.contains(a))).collect();
+        let surviving: Vec<usize> = e1.entries.iter().filter_map(idx).collect();
+        let known_shape = e2.entries.is_subset(&e1.entries)
+            && !minimal.is_empty()
+            && minimal.iter().all(|x| !surviving.iter().any(|s| !gone.contains(s) && concurrent(*x, *s)) && (0..n).any(|r| !surviving.contains(&r) && concurrent(*x, r)));
+        let sig = if known_shape {
+            "C06/identity/change-survives-only-while-a-rejected-concurrent-change-exists"
+        } else {
+            "C06/identity/reduced-history-evaluates-to-different-change-set"
+        };
+        rep.violation(sig, json!({"note": "history generated by the C04 generator with this case seed; ops listed by index", "ops": hist(), "minimal_disappeared": minimal,
+            "only_in_full": e1.entries.difference(&e2.entries).map(idx).collect::<Vec<_>>(), "only_in_reduced": e2.entries.difference(&e1.entries).map(idx).collect::<Vec<_>>()}));
+    } else if e2.state != e1.state {
+        rep.violation(&format!("C06/identity/rejected-change-left-trace-in/{}", diff_field(&e1.state, &e2.state)), json!({"ops": hist(), "diff_at": first_diff(&e1.state, &e2.state, "")}));
+    }
+    if e1.entries.len() < ops.len() {
+        rep.count("identity.histories-with-pruning");
+        rep.nontrivial(vcommon::fnv(id.to_string().as_bytes()));
+    }
+    rep.add("identity.changes-written", ops.len() as u64);
+    rep.add("identity.changes-accepted", e1.entries.len() as u64);
+}
+
 pub fn run(args: &Args) {
     let mut rep = Reporter::new("C06");
-    let n = args.budget(320, 6_000);
+    let n = args.budget(1_600, 16_000);
     let mut w = World::new(2, 5, 1, "c06");
     for kcase in 0..n {
         let mut rng = Rng::new(args.case_seed(kcase));
@@ -137,7 +203,14 @@ pub fn run(args: &Args) {
             p_child_of_doomed: 150,
             unprivileged: false,
         };
-        match kcase % 2 {
+        match kcase % 3 {
+            2 => {
+                // identity histories from the C04 generator (fresh repository each)
+                let mut scratch = Reporter::new("C06-gen");
+                if let Some((wi, ops)) = crate::c04::one(&mut scratch, args.case_seed(kcase), args.thorough, false) {
+                    check_identity(&mut rep, &wi, &ops);
+                }
+            }
             0 => {
                 let h = gen::gen_issue(&w, &mut rng, &knobs);
                 check_hist::<Issue>(&mut rep, &w, &h, "issue");
